@@ -50,7 +50,7 @@ KEYS2 = ("000", "001", "011", "100", "101", "111")
 # 1. the design
 def _mc(name, consts, workers=2, timeout=1500):
     base = {"N": 3, "P": 3, "R2N": 3, "R2D": 2, "V": 1, "HMode": "default", "AL": "mid", "RL": "mid", "MaxIt": 2, "Hist": False,
-            "Mutant": "none", "Control": "none", "Attrs": "same", "Dirs": {0, 1, 2, 3}}
+            "Mutant": "none", "Control": "none", "Attrs": "same", "Dirs": {0, 1, 2, 3}, "CheckSucc": True}
     base.update(consts)
     r = tlc.run("MC_GAM", tlc.cfg_text(base, invariants=MC_INV), workers=workers, timeout=timeout)
     s = tlc.stats(r["out"]) or {"generated": 0, "distinct": 0}
@@ -74,12 +74,13 @@ def explore(res, tier):
            ("2 agents, 3x3, free homophily, a = 1 (nobody with neighbours moves), r = 1", {"N": 2, "HMode": "mid", "AL": "1", "RL": "1"}, 1),
            ("2 agents, 3x3, a = 0 (everybody moves), r = 0", {"N": 2, "AL": "0", "RL": "0"}, 1)]
     if not q:
-        pos += [("3 agents, 3x3, free homophily", {"N": 3, "HMode": "mid"}, 4),
-                ("3 agents, 3x3, every attribute vector", {"N": 3, "Attrs": "all"}, 4),
-                ("3 agents, 3x3, histories kept 2 iterations", {"N": 3, "Hist": True, "MaxIt": 2}, 4),
-                ("3 agents, 4x4, radius 3/2", {"N": 3, "P": 4, "R2N": 9, "R2D": 4}, 4),
+        pos += [("3 agents, 3x3, free homophily, quarter turns 0 and 1 (IsSuccessor not asserted)",
+                 {"N": 3, "HMode": "mid", "Dirs": {0, 1}, "CheckSucc": False}, 3),
+                ("3 agents, 3x3, every attribute vector, quarter turns 0 and 1", {"N": 3, "Attrs": "all", "Dirs": {0, 1}}, 3),
+                ("3 agents, 3x3, histories kept 2 iterations", {"N": 3, "Hist": True, "MaxIt": 2}, 3),
+                ("3 agents, 4x4, radius 3/2, quarter turns 0 and 1", {"N": 3, "P": 4, "R2N": 9, "R2D": 4, "Dirs": {0, 1}}, 3),
                 ("3 agents, 3x3, steps of 2", {"N": 3, "V": 2}, 3),
-                ("4 agents, 2x2", {"N": 4, "P": 2, "R2N": 3, "R2D": 2}, 4)]
+                ("4 agents, 2x2, a = 1, r = 1, quarter turn 0", {"N": 4, "P": 2, "Dirs": {0}, "AL": "1", "RL": "1"}, 1)]
     neg = [("control: groups[.] is symmetric", {"N": 2, "Control": "symmetric"}),
            ("control: the groups of one iteration are disjoint", {"N": 3, "Control": "disjoint"}),
            ("control: members are mutually within the radius", {"N": 3, "Control": "mutual"}),
@@ -88,7 +89,7 @@ def explore(res, tier):
            ("mutant keep_groups_when_inactive", {"N": 2, "Hist": True, "Mutant": "keep_groups_when_inactive"}),
            ("mutant emit_singletons", {"N": 2, "Hist": True, "Mutant": "emit_singletons"}),
            ("mutant time_plus_one", {"N": 2, "Hist": True, "Mutant": "time_plus_one"})]
-    with cf.ThreadPoolExecutor(max_workers=4 if q else 5) as ex:
+    with cf.ThreadPoolExecutor(max_workers=4 if q else 6) as ex:
         fp = [ex.submit(_mc, nm, c, w) for nm, c, w in pos]
         fn = [ex.submit(_mc, nm, c, 1) for nm, c in neg]
         pos_r = [f.result() for f in fp]
